@@ -201,8 +201,9 @@ CHECKS = {
         text=("Model (Model/Json.lean): toJson for every class (incl. Imply's re-negated condition, Xor/XNor/cc.Any/cc.Xor/"
               "StingyConfigurator shapes) and toAst (the constructor call from_json makes, for the plog and the configurator "
               "class maps). Theorems (Props/C16.lean): frag_roundtrip — for the fragment variable / AtLeast with any legal sign "
-              "and value / AtMost / Any / All / Xor / ExactlyOne, nested arbitrarily, from_json(to_json(t)) builds a model that "
-              "evaluates like t on every assignment (sgnOf_signJ: the sign written only when it differs from the default reads "
+              "and value / AtMost / Any / All / Xor / ExactlyOne, nested arbitrarily, from_json(to_json(t)) builds a model over the "
+              "same leaf variables with the same bounds (multiset of occurrences, leafList) that evaluates like t on every "
+              "assignment (sgnOf_signJ: the sign written only when it differs from the default reads "
               "back as the sign; All re-derives its value from the number of distinct children, which needs the children to "
               "stay pairwise distinct after the round trip — DistinctRT, the hypothesis that fails exactly on known finding "
               "F16f; Xor is rebuilt from the propositions of one half); "
